@@ -116,6 +116,8 @@ class Interp:
         models.install(self)
         from . import cryptomodel
         cryptomodel.install(self)
+        from . import scapymodel
+        scapymodel.install(self)
 
     # ------------------------------------------------------------------ modules
     def module(self, name):
